@@ -85,7 +85,7 @@ def call(func, args, script=None):
             try:
                 func(args)
             except BaseException as e:
-                if type(e).__module__.startswith('hypothesis'):
+                if type(e).__module__.startswith('hypothesis') or type(e).__name__ == 'CaseTimeout':
                     raise
                 o.exc = e
     finally:
@@ -131,7 +131,7 @@ def main_argv(argv, script=None):
             except SystemExit as e:
                 o.exit = e.code
             except BaseException as e:
-                if type(e).__module__.startswith('hypothesis'):
+                if type(e).__module__.startswith('hypothesis') or type(e).__name__ == 'CaseTimeout':
                     raise
                 o.exc = e
     finally:
